@@ -418,12 +418,16 @@ func keyExchange(klen int, ida, idb []byte, pri *PrivateKey, pub *PublicKey, rpr
 	zero := new(big.Int)
 	if vx.Cmp(zero) == 0 || vy.Cmp(zero) == 0 {
 		err = errors.New("V is infinite")
+		return
 	}
 	pzb := pub
 	if !thisISA {
 		pzb = &pri.PublicKey
 	}
 	zb, err := ZA(pzb, idb)
+	if err != nil {
+		return
+	}
 	vxBuf, vyBuf := bigTo32Bytes(vx), bigTo32Bytes(vy)
 	k, ok := kdf(klen, vxBuf, vyBuf, za, zb)
 	if !ok {
